@@ -15,7 +15,7 @@ Open Scope string_scope.
 
 Lemma gen_regex : manylinux_regex = "manylinux_([0-9]+)_([0-9]+)_(.*)".
 Proof. reflexivity. Qed.
-Lemma gen_sortkey_fields : sortkey_fields = [FVersion; FExtra; FType; FTagScore].
+Lemma gen_sortkey_fields : sortkey_fields = [FVersion; FExtra; FType; FTagScore; FFilename].
 Proof. reflexivity. Qed.
 Lemma gen_sort_reverse : sort_reverse = true.
 Proof. reflexivity. Qed.
@@ -28,21 +28,24 @@ Lemma gen_abi_compressed : abi_test_compressed = true.
 Proof. reflexivity. Qed.
 Lemma gen_interp : interp_tag = "cp".
 Proof. reflexivity. Qed.
-Lemma gen_alias_keys :
-  forallb (fun kv => startswith (fst kv) "manylinux" && negb (startswith (fst kv) "manylinux_"))
-          legacy_aliases = true.
+(* legacy manylinux tags are re-spelled by _normalize_manylinux (prefix table, any machine) on both
+   the eligibility and the ranking side; "any" no longer resets the platform score *)
+Lemma gen_alias_mode : alias_mode_usability = APrefix /\ alias_mode_score = APrefix.
+Proof. split; reflexivity. Qed.
+Lemma gen_any_max : any_resets = false.
+Proof. reflexivity. Qed.
+Lemma gen_prefix_keys :
+  forallb (fun kv => startswith (fst kv) "manylinux" && negb (String.eqb (fst kv) "manylinux"))
+          legacy_manylinux = true.
 Proof. reflexivity. Qed.
 Lemma gen_alias_legacy arch k n :
-  legacy_arch arch = true -> legacy_name k = Some n ->
-  alias (n ++ "_" ++ arch) = manylinux_tag 2 k arch.
+  legacy_name k = Some n -> alias_with APrefix (n ++ "_" ++ arch) = manylinux_tag 2 k arch.
 Proof.
-  unfold legacy_arch, legacy_name. intros Ha Hn.
-  assert (arch = "x86_64" \/ arch = "i686") as [-> | ->].
-  { apply orb_true_iff in Ha. destruct Ha as [H|H]; apply String.eqb_eq in H; auto. }
-  all: destruct (k =? 17)%N eqn:E1; [apply N.eqb_eq in E1; subst; inversion Hn; subst; reflexivity|];
-       destruct (k =? 12)%N eqn:E2; [apply N.eqb_eq in E2; subst; inversion Hn; subst; reflexivity|];
-       destruct (k =? 5)%N eqn:E3; [apply N.eqb_eq in E3; subst; inversion Hn; subst; reflexivity|];
-       discriminate.
+  unfold legacy_name. intros Hn.
+  destruct (k =? 17)%N eqn:E1; [apply N.eqb_eq in E1; subst; inversion Hn; subst; reflexivity|];
+  destruct (k =? 12)%N eqn:E2; [apply N.eqb_eq in E2; subst; inversion Hn; subst; reflexivity|];
+  destruct (k =? 5)%N eqn:E3; [apply N.eqb_eq in E3; subst; inversion Hn; subst; reflexivity|];
+  discriminate.
 Qed.
 (* ------------------------------------------------------------------ Decimal *)
 
@@ -91,6 +94,8 @@ Proof. intros; apply span_digits_app; auto using dec_digits. Qed.
 (* reversal / strip on strings whose characters all fail the predicate *)
 Lemma rev_str_acc_acc s a b : rev_str_acc (rev_str_acc s a) b = rev_str_acc a (s ++ b).
 Proof. revert a; induction s as [|c s IH]; intros a; cbn [rev_str_acc append]; auto. rewrite IH. reflexivity. Qed.
+Lemma append_assoc_s' (a b c : string) : (a ++ b) ++ c = a ++ b ++ c.
+Proof. induction a; cbn; congruence. Qed.
 Lemma append_empty s : s ++ "" = s.
 Proof. induction s; cbn; congruence. Qed.
 Lemma rev_str_invol s : rev_str (rev_str s) = s.
@@ -230,27 +235,69 @@ Proof.
   destruct (String.eqb s k) eqn:E; [apply String.eqb_eq in E; subst; congruence|auto].
 Qed.
 
+Lemma rev_str_acc_cat a x : rev_str_acc a x = rev_str a ++ x.
+Proof.
+  unfold rev_str. revert x. induction a as [|c a IH]; intros x; cbn [rev_str_acc append]; auto.
+  rewrite (IH (String c x)), (IH (String c "")), append_assoc_s'. reflexivity.
+Qed.
+
+Lemma partition_spec sep s : forall acc b a,
+  partition_char_acc sep s acc = (b, true, a) -> rev_str acc ++ s = b ++ String sep a.
+Proof.
+  induction s as [|c s IH]; intros acc b a; cbn [partition_char_acc]; [discriminate|].
+  destruct (Ascii.eqb c sep) eqn:E.
+  - apply Ascii.eqb_eq in E. subst. intros H. inversion H. reflexivity.
+  - intros H. apply IH in H. rewrite <- H. unfold rev_str. cbn [rev_str_acc].
+    rewrite (rev_str_acc_cat acc (String c "")). unfold rev_str. rewrite append_assoc_s'. reflexivity.
+Qed.
+
+Lemma prefixb_exists p s : prefixb p s = true -> exists r, s = p ++ r.
+Proof.
+  revert s; induction p as [|c p IH]; intros s; cbn; [eauto|].
+  destruct s as [|d s]; [discriminate|]. intros H. apply andb_true_iff in H as [H1 H2].
+  apply Ascii.eqb_eq in H1. subst. destruct (IH _ H2) as (r & ->). eauto.
+Qed.
+Lemma prefixb_app p r : prefixb p (p ++ r) = true.
+Proof. induction p as [|c p IH]; cbn; auto. rewrite Ascii.eqb_refl. exact IH. Qed.
+Lemma prefixb_ext p k r : prefixb p k = true -> prefixb p (k ++ r) = true.
+Proof. intros H. destruct (prefixb_exists _ _ H) as (x & ->). rewrite append_assoc_s'. apply prefixb_app. Qed.
+
+(* _normalize_manylinux leaves alone whatever does not start with "manylinux<something>_" *)
+Lemma alias_prefix_not_manylinux s : startswith s "manylinux" = false -> alias_with APrefix s = s.
+Proof.
+  intros H. cbn [alias_with]. unfold partition_char.
+  destruct (partition_char_acc "_" s "") as [[legacy found] arch] eqn:E.
+  destruct found; auto. destruct (assoc legacy legacy_manylinux) eqn:A; auto. exfalso.
+  apply partition_spec in E. cbn in E.
+  assert (startswith legacy "manylinux" = true) as K.
+  { destruct (startswith legacy "manylinux") eqn:K; auto.
+    assert (forallb (fun kv : string * string => startswith (fst kv) "manylinux") legacy_manylinux = true) as G.
+    { pose proof gen_prefix_keys as G. rewrite forallb_forall in *. intros x Hx.
+      specialize (G x Hx). apply andb_true_iff in G. tauto. }
+    rewrite (assoc_none_gen (fun k => startswith k "manylinux") legacy _ G K) in A. discriminate. }
+  unfold startswith in *. rewrite E in H. rewrite (prefixb_ext _ _ _ K) in H. discriminate.
+Qed.
+
+Lemma alias_prefix_manylinux_ s : startswith s "manylinux_" = true -> alias_with APrefix s = s.
+Proof.
+  intros H. destruct (prefixb_exists _ _ H) as (r & ->). cbn [alias_with].
+  change (partition_char "_" ("manylinux_" ++ r)) with ("manylinux", true, r). cbv beta iota.
+  assert (forallb (fun kv : string * string => negb (String.eqb (fst kv) "manylinux")) legacy_manylinux = true) as G.
+  { pose proof gen_prefix_keys as G. rewrite forallb_forall in *. intros x Hx.
+    specialize (G x Hx). apply andb_true_iff in G. tauto. }
+  rewrite (assoc_none_gen (fun k => negb (String.eqb k "manylinux")) "manylinux" _ G); reflexivity.
+Qed.
+
 Lemma alias_not_manylinux s : startswith s "manylinux" = false -> alias s = s.
-Proof.
-  intros H. unfold alias.
-  assert (forallb (fun kv : string * string => startswith (fst kv) "manylinux") legacy_aliases = true) as G.
-  { pose proof gen_alias_keys as G. rewrite forallb_forall in *. intros x Hx.
-    specialize (G x Hx). apply andb_true_iff in G. tauto. }
-  rewrite (assoc_none_gen (fun k => startswith k "manylinux") s _ G H). reflexivity.
-Qed.
-
+Proof. unfold alias. rewrite (proj1 gen_alias_mode). apply alias_prefix_not_manylinux. Qed.
 Lemma alias_manylinux_ s : startswith s "manylinux_" = true -> alias s = s.
-Proof.
-  intros H. unfold alias.
-  assert (forallb (fun kv : string * string => negb (startswith (fst kv) "manylinux_")) legacy_aliases = true) as G.
-  { pose proof gen_alias_keys as G. rewrite forallb_forall in *. intros x Hx.
-    specialize (G x Hx). apply andb_true_iff in G. tauto. }
-  rewrite (assoc_none_gen (fun k => negb (startswith k "manylinux_")) s _ G); [reflexivity|].
-  rewrite H. reflexivity.
-Qed.
-
+Proof. unfold alias. rewrite (proj1 gen_alias_mode). apply alias_prefix_manylinux_. Qed.
 Lemma alias_render a b arch : alias (manylinux_tag a b arch) = manylinux_tag a b arch.
 Proof. apply alias_manylinux_. reflexivity. Qed.
+Lemma alias_legacy arch k n : legacy_name k = Some n -> alias (n ++ "_" ++ arch) = manylinux_tag 2 k arch.
+Proof. unfold alias. rewrite (proj1 gen_alias_mode). apply gen_alias_legacy. Qed.
+Lemma alias_score_legacy arch k n : legacy_name k = Some n -> alias_score (n ++ "_" ++ arch) = manylinux_tag 2 k arch.
+Proof. unfold alias_score. rewrite (proj2 gen_alias_mode). apply gen_alias_legacy. Qed.
 
 Lemma pair_ltb_false_iff x y : pair_ltb x y = false <-> ((fst y < fst x)%N \/ (fst y = fst x /\ snd y <= snd x)%N).
 Proof. unfold pair_ltb. destruct x, y; cbn [fst snd]. lia. Qed.
@@ -392,16 +439,6 @@ Proof.
 Qed.
 
 (* platform tags *)
-Definition is_legacy_name (p : string) : bool :=
-  startswith p "manylinux1_" || startswith p "manylinux2010_" || startswith p "manylinux2014_".
-
-Lemma legacy_name_is_legacy k n arch : legacy_name k = Some n -> is_legacy_name (n ++ "_" ++ arch) = true.
-Proof.
-  unfold legacy_name. destruct (k =? 17)%N; [intros E; inversion E; reflexivity|].
-  destruct (k =? 12)%N; [intros E; inversion E; reflexivity|].
-  destruct (k =? 5)%N; [intros E; inversion E; reflexivity|discriminate].
-Qed.
-
 Lemma manylinux_ok r k :
   wf_raw r = true -> (exists g, r_glibc r = Some (2%N, g) /\ (k <= g)%N) ->
   manylinux_compatible (cfg_of r) (manylinux_tag 2 k (r_arch r)) = true.
@@ -413,10 +450,9 @@ Qed.
 
 Lemma plat_ok_check r plat plats :
   wf_raw r = true -> plat_ok r plat ->
-  (legacy_arch (r_arch r) = true \/ is_legacy_name plat = false) ->
   In plat plats -> check_platform (cfg_of r) plats = true.
 Proof.
-  intros W H G Hin. destruct (wf_raw_inv r W) as (_ & Hlow & Hnl & Hg).
+  intros W H Hin. destruct (wf_raw_inv r W) as (_ & Hlow & Hnl & Hg).
   unfold check_platform. destruct H as [->|[<-|H]].
   - apply (proj2 (mem_In _ _)) in Hin. rewrite Hin. reflexivity.
   - assert (existsb (fun p => mem (lower p) (c_platform_tags (cfg_of r))) plats = true) as ->.
@@ -429,11 +465,9 @@ Proof.
       destruct H as [<-|H].
       - apply manylinux_ok; eauto.
       - destruct (legacy_name k) as [n|] eqn:En; [|destruct H]. destruct H as [<-|[]].
-        destruct G as [G|G].
-        + unfold manylinux_compatible. rewrite (gen_alias_legacy _ _ _ G En).
-          pose proof (manylinux_ok r k W (ex_intro _ g (conj E Hk))) as Hm.
-          unfold manylinux_compatible in Hm. rewrite alias_render in Hm. exact Hm.
-        + rewrite (legacy_name_is_legacy _ _ _ En) in G. discriminate. }
+        unfold manylinux_compatible. rewrite (alias_legacy _ _ _ En).
+        pose proof (manylinux_ok r k W (ex_intro _ g (conj E Hk))) as Hm.
+        unfold manylinux_compatible in Hm. rewrite alias_render in Hm. exact Hm. }
     assert (existsb (manylinux_compatible (cfg_of r)) plats = true) as ->.
     { apply existsb_exists. eexists; eauto. }
     apply orb_true_r.
@@ -441,11 +475,10 @@ Qed.
 
 Lemma supported_eligible r t id v build pyf abif platf fn :
   wf_raw r = true -> In t (sys_tags r) ->
-  (legacy_arch (r_arch r) = true \/ is_legacy_name (snd t) = false) ->
   wheel_has_tag pyf abif platf t ->
   eligible (cfg_of r) (wheel_cand id v build pyf abif platf fn) = true.
 Proof.
-  intros W Hin G Hhas. destruct t as [[py abi] plat]. cbn [snd] in G.
+  intros W Hin Hhas. destruct t as [[py abi] plat].
   destruct Hhas as (Hpy & Habi & Hplat).
   destruct (sys_tags_inv _ _ _ _ Hin) as (Opy & Oabi & Oplat).
   unfold eligible, check_usability. rewrite find_none; auto.
@@ -460,11 +493,9 @@ Proof.
     apply (proj2 (mem_In _ _)) in H. rewrite H. apply orb_true_r.
   - rewrite (plat_ok_check r plat); auto. apply dedup_In; auto.
 Qed.
-(* the full statement (false of the code as it is: see legacy_alias_arch_refuted below) *)
-Definition supported_eligible_full_statement : Prop :=
-  forall r t id v build pyf abif platf fn,
-  wf_raw r = true -> In t (sys_tags r) -> wheel_has_tag pyf abif platf t ->
-  eligible (cfg_of r) (wheel_cand id v build pyf abif platf fn) = true.
+(* [supported_eligible] is the full statement: no guard is left beside the domain of the specification
+   (wf_raw).  Its two former exclusions were repaired in /repo: the compressed ABI field (c54d5f0) and
+   the legacy alias names on machines other than x86_64 / i686 (C20-1-legacy-alias-any-arch). *)
 
 Lemma mem_tag_In t l : mem_tag t l = true -> In t l.
 Proof.
@@ -480,12 +511,11 @@ Definition v10 : version := mkV 0 [1; 0]%N None None None [].
 
 Example supported_eligible_nontrivial :
   wf_raw r312 = true /\ In ("cp311", "abi3", "manylinux2014_x86_64") (sys_tags r312)
-  /\ legacy_arch (r_arch r312) = true
   /\ wheel_has_tag "cp311.cp312" "cp311.abi3" "win_amd64.manylinux2014_x86_64" ("cp311", "abi3", "manylinux2014_x86_64")
   /\ List.length (sys_tags r312) = 987%nat.
 Proof.
   split; [reflexivity|]. split; [apply mem_tag_In; vm_compute; reflexivity|].
-  split; [reflexivity|]. split; [cbv; tauto|vm_compute; reflexivity].
+  split; [cbv; tauto|vm_compute; reflexivity].
 Qed.
 
 (* since c54d5f0 (fix of the former C20-compressed-abi finding): the witness of the former
@@ -502,20 +532,18 @@ Proof.
   intros. apply (supported_eligible r312 ("cp312", "abi3", "linux_x86_64")); auto.
 Qed.
 
-Lemma legacy_alias_arch_refuted :
-  exists r t pyf abif platf,
-    wf_raw r = true /\ In t (sys_tags r) /\ wheel_has_tag pyf abif platf t
-    /\ forall id v build fn, eligible (cfg_of r) (wheel_cand id v build pyf abif platf fn) = false.
+(* the witness of the former legacy_alias_arch_refuted (corpus/C20/legacy-alias-arch.json): eligible -
+   an instance of supported_eligible, and by computation *)
+Lemma legacy_alias_arch_eligible :
+  wf_raw r312_arm = true /\ In ("cp312", "cp312", "manylinux2014_aarch64") (sys_tags r312_arm)
+  /\ wheel_has_tag "cp312" "cp312" "manylinux2014_aarch64" ("cp312", "cp312", "manylinux2014_aarch64")
+  /\ forall id v build fn,
+       eligible (cfg_of r312_arm) (wheel_cand id v build "cp312" "cp312" "manylinux2014_aarch64" fn) = true.
 Proof.
-  exists r312_arm, ("cp312", "cp312", "manylinux2014_aarch64"), "cp312", "cp312", "manylinux2014_aarch64".
-  split; [reflexivity|]. split; [apply mem_tag_In; vm_compute; reflexivity|].
-  split; [cbv; tauto|]. intros. vm_compute. reflexivity.
-Qed.
-
-Lemma supported_eligible_full_statement_false : ~ supported_eligible_full_statement.
-Proof.
-  intros F. destruct legacy_alias_arch_refuted as (r & t & pyf & abif & platf & W & Hin & Hhas & Hno).
-  specialize (F r t 0%N v10 "" pyf abif platf "" W Hin Hhas). rewrite Hno in F. discriminate.
+  assert (In ("cp312", "cp312", "manylinux2014_aarch64") (sys_tags r312_arm)) as Hin by (apply mem_tag_In; vm_compute; reflexivity).
+  assert (wheel_has_tag "cp312" "cp312" "manylinux2014_aarch64" ("cp312", "cp312", "manylinux2014_aarch64")) as Hhas by (cbv; tauto).
+  split; [reflexivity|]. split; [exact Hin|]. split; [exact Hhas|].
+  intros. apply (supported_eligible r312_arm ("cp312", "cp312", "manylinux2014_aarch64")); auto.
 Qed.
 
 (* ------------------------------------------------------------------ Foreign *)
@@ -849,6 +877,40 @@ Section SortFacts.
     - eapply Permutation_NoDup; [|exact ND]. apply Permutation_map, Permutation_sym, sort_perm.
   Qed.
 
+  (* lists of keys: sorted + permutation => equal, duplicates or not *)
+  Lemma sorted_keys_unique (k1 : list (list (list Z))) : forall k2,
+    StronglySorted ge2 k1 -> StronglySorted ge2 k2 -> Permutation k1 k2 -> k1 = k2.
+  Proof.
+    induction k1 as [|x xs IH]; intros k2 S1 S2 P.
+    - apply Permutation_nil in P. auto.
+    - destruct k2 as [|y ys]; [apply Permutation_sym, Permutation_nil in P; discriminate|].
+      inversion S1 as [|? ? Sx Hx]; subst. inversion S2 as [|? ? Sy Hy]; subst.
+      rewrite Forall_forall in Hx, Hy.
+      assert (x = y) as ->.
+      { assert (In x (y :: ys)) as Ix by (apply (Permutation_in _ P); left; auto).
+        assert (In y (x :: xs)) as Iy by (apply (Permutation_in _ (Permutation_sym P)); left; auto).
+        destruct Ix as [->|Ix]; auto. destruct Iy as [->|Iy]; auto.
+        pose proof (Hy _ Ix) as G1. pose proof (Hx _ Iy) as G2. unfold ge2 in G1, G2.
+        rewrite (lex2_antisym x y) in G1.
+        destruct (lex2 x y) eqn:E; cbn in G1; try congruence. apply lex2_eq in E. exact E. }
+      f_equal. apply IH; auto. eapply Permutation_cons_inv; eauto.
+  Qed.
+
+  Lemma map_key_sorted l : sortedA l -> StronglySorted ge2 (map key l).
+  Proof.
+    induction 1 as [|x l S IH Hx]; cbn; constructor; auto.
+    rewrite Forall_forall in *. intros y Hy. apply in_map_iff in Hy as (z & <- & Hz). apply Hx; auto.
+  Qed.
+
+  (* the sequence of keys of the ranking never depends on the listing order *)
+  Lemma sort_keys_order_free l l' :
+    Permutation l l' -> map key (sort_by key Gt l) = map key (sort_by key Gt l').
+  Proof.
+    intros P. apply sorted_keys_unique; auto using map_key_sorted, sort_sorted.
+    apply Permutation_map. eapply Permutation_trans; [apply sort_perm|].
+    eapply Permutation_trans; [exact P|]. apply Permutation_sym, sort_perm.
+  Qed.
+
   (* in a sorted list nothing strictly greater follows a smaller element *)
   Lemma sorted_before l l1 l2 s w :
     sortedA l -> l = (l1 ++ s :: l2)%list -> lex2 (key w) (key s) = Gt -> ~ In w l2.
@@ -881,20 +943,80 @@ Qed.
 Lemma sort_is_permutation c l out : sort_candidates c l = Ok out -> Permutation out l.
 Proof. intros H. apply sort_candidates_ok in H as (_ & ->). apply sort_perm. Qed.
 
-(* the full statement: the ranking never depends on the listing order (false: ties) *)
-Definition rank_order_free_full_statement : Prop :=
-  forall c l l' out, Permutation l l' -> sort_candidates c l = Ok out -> sort_candidates c l' = Ok out.
+(* the file name is the last element of the key (fix C20-3-sortkey-file-name) *)
+Definition fname (k : cand) : string := match k_filename k with Some f => f | None => EmptyString end.
 
-Lemma rank_order_free c l l' out :
-  Permutation l l' -> NoDup (map (sortkey_d c) l) ->
-  sort_candidates c l = Ok out -> sort_candidates c l' = Ok out.
+Lemma ord_inj a b : ord a = ord b -> a = b.
 Proof.
-  intros P ND H. apply sort_candidates_ok in H as (F & ->).
-  unfold sort_candidates. rewrite sort_dir_gt.
-  assert (first_err c l' = None) as ->.
+  unfold ord. intros H. apply Nat2Z.inj in H.
+  rewrite <- (ascii_nat_embedding a), <- (ascii_nat_embedding b), H. reflexivity.
+Qed.
+Lemma codes_inj a : forall b, codes a = codes b -> a = b.
+Proof.
+  induction a as [|x a IH]; intros [|y b]; cbn; try discriminate; auto.
+  intros H. inversion H as [[H1 H2]]. apply ord_inj in H1. f_equal; auto.
+Qed.
+
+Lemma sortkey_fname c k x : sortkey c k = Ok x -> nth 4 x [] = codes (fname k).
+Proof.
+  unfold sortkey. rewrite gen_sortkey_fields. destruct (tag_score c k); [|discriminate].
+  intros H. inversion H. reflexivity.
+Qed.
+
+Lemma sort_candidates_total c l l' out :
+  Permutation l l' -> sort_candidates c l = Ok out ->
+  first_err c l' = None /\ sort_candidates c l' = Ok (sort_by (sortkey_d c) Gt l').
+Proof.
+  intros P H. apply sort_candidates_ok in H as (F & _).
+  assert (first_err c l' = None) as F'.
   { apply first_err_none. intros k Hk. rewrite first_err_none in F. apply F.
     apply (Permutation_in _ (Permutation_sym P)); auto. }
-  f_equal. symmetry. apply sort_order_free; auto.
+  split; auto. unfold sort_candidates. rewrite sort_dir_gt, F'. reflexivity.
+Qed.
+
+(* FULL statement, no guard: whatever the listing order, the ranking shows the same sequence of keys,
+   hence the same sequence of file names *)
+Lemma rank_keys_order_free c l l' out :
+  Permutation l l' -> sort_candidates c l = Ok out ->
+  exists out', sort_candidates c l' = Ok out'
+               /\ map (sortkey_d c) out' = map (sortkey_d c) out /\ map fname out' = map fname out.
+Proof.
+  intros P H. destruct (sort_candidates_total _ _ _ _ P H) as (F' & H').
+  pose proof (sort_is_permutation _ _ _ H) as Pout. pose proof (sort_is_permutation _ _ _ H') as Pout'.
+  apply sort_candidates_ok in H as (F & ->).
+  eexists. split; [exact H'|].
+  assert (map (sortkey_d c) (sort_by (sortkey_d c) Gt l') = map (sortkey_d c) (sort_by (sortkey_d c) Gt l)) as K
+    by (apply sort_keys_order_free, Permutation_sym, P).
+  split; [exact K|].
+  assert (forall m, (forall k, In k m -> exists x, sortkey c k = Ok x) ->
+                    map (fun k => codes (fname k)) m = map (fun x => nth 4 x []) (map (sortkey_d c) m)) as N.
+  { intros m Hm. rewrite map_map. apply map_ext_in. intros k Hk. destruct (Hm k Hk) as (x & Hx).
+    unfold sortkey_d. rewrite Hx. symmetry. apply (sortkey_fname _ _ _ Hx). }
+  assert (map (fun k => codes (fname k)) (sort_by (sortkey_d c) Gt l')
+          = map (fun k => codes (fname k)) (sort_by (sortkey_d c) Gt l)) as C.
+  { rewrite !N; [rewrite K; reflexivity| |].
+    - intros k Hk. apply (proj1 (first_err_none c l) F). apply (Permutation_in _ Pout); auto.
+    - intros k Hk. apply (proj1 (first_err_none c l') F'). apply (Permutation_in _ Pout'); auto. }
+  clear -C. revert C. generalize (sort_by (sortkey_d c) Gt l). generalize (sort_by (sortkey_d c) Gt l').
+  induction l0 as [|a l0 IH]; intros [|b l1]; cbn; try discriminate; auto.
+  intros H. inversion H as [[H1 H2]]. apply codes_inj in H1. f_equal; auto.
+Qed.
+
+(* ... and when the listed files have different names, the very same candidates in the same order *)
+Lemma rank_order_free c l l' out :
+  Permutation l l' -> NoDup (map fname l) ->
+  sort_candidates c l = Ok out -> sort_candidates c l' = Ok out.
+Proof.
+  intros P ND H. destruct (sort_candidates_total _ _ _ _ P H) as (_ & H').
+  rewrite H'. apply sort_candidates_ok in H as (F & ->). f_equal. symmetry. apply sort_order_free; auto.
+  assert (NoDup (map (fun x => nth 4 x []) (map (sortkey_d c) l))) as X.
+  { rewrite map_map.
+    assert (map (fun k => nth 4 (sortkey_d c k) []) l = map (fun k => codes (fname k)) l) as ->.
+    { apply map_ext_in. intros k Hk. destruct (proj1 (first_err_none c l) F k Hk) as (x & Hx).
+      unfold sortkey_d. rewrite Hx. apply (sortkey_fname _ _ _ Hx). }
+    rewrite <- (map_map fname codes). apply FinFun.Injective_map_NoDup; auto.
+    intros a b. apply codes_inj. }
+  apply NoDup_map_inv in X. exact X.
 Qed.
 
 Lemma lex_nil_r a : lex a [] <> Lt.
@@ -942,53 +1064,52 @@ Example wheel_ranks_before_sdist_nontrivial :
   sort_candidates (cfg_of r312) [s_10; w_py3; w_cp312] = Ok [w_cp312; w_py3; s_10]
   /\ eligible (cfg_of r312) w_py3 = true /\ eligible (cfg_of r312) w_cp312 = true
   /\ eligible (cfg_of r312) s_10 = true
-  /\ NoDup (map (sortkey_d (cfg_of r312)) [s_10; w_py3; w_cp312]).
+  /\ NoDup (map fname [s_10; w_py3; w_cp312]).
 Proof.
   repeat split; try (vm_compute; reflexivity).
   vm_compute. repeat constructor; cbn; intuition discriminate.
 Qed.
 
-Lemma rank_tie_refuted :
-  exists c a b, a <> b /\ eligible c a = true /\ eligible c b = true
-    /\ k_version a = k_version b /\ k_type a = Wheel /\ k_type b = Wheel
-    /\ sort_candidates c [a; b] = Ok [a; b] /\ sort_candidates c [b; a] = Ok [b; a].
-Proof.
-  exists (cfg_of r312), w_py3, w_py23.
-  split; [discriminate|]. repeat split; vm_compute; reflexivity.
-Qed.
+(* the witnesses of the former rank_tie_refuted and platform_set_order_refuted, now resolved *)
+Example rank_tie_resolved :
+  eligible (cfg_of r312) w_py3 = true /\ eligible (cfg_of r312) w_py23 = true
+  /\ sort_candidates (cfg_of r312) [w_py3; w_py23] = Ok [w_py3; w_py23]
+  /\ sort_candidates (cfg_of r312) [w_py23; w_py3] = Ok [w_py3; w_py23].
+Proof. repeat split; vm_compute; reflexivity. Qed.
 
-Lemma rank_order_free_full_statement_false : ~ rank_order_free_full_statement.
+Lemma plat_score_perm c l l' : Permutation l l' -> plat_score c l = plat_score c l'.
 Proof.
-  intros F. destruct rank_tie_refuted as (c & a & b & Hne & _ & _ & _ & _ & _ & H1 & H2).
-  specialize (F c [a; b] [b; a] [a; b] (perm_swap b a []) H1). rewrite H2 in F.
-  inversion F. congruence.
-Qed.
-
-(* tag_score iterates the platforms *set*: "any" assigns 0 instead of taking the maximum, so the
-   score depends on the iteration order *)
-Lemma platform_set_order_refuted :
-  exists c k k', k_plats k' = rev (k_plats k) /\ k_py k' = k_py k /\ k_abi k' = k_abi k
-    /\ k_filename k' = k_filename k /\ tag_score c k <> tag_score c k'.
-Proof.
-  exists (cfg_of r312),
-         (mkCand 0 v10 "" Wheel (Some ["py3"]) None ["any"; "linux_x86_64"] (Some "x.whl")),
-         (mkCand 0 v10 "" Wheel (Some ["py3"]) None ["linux_x86_64"; "any"] (Some "x.whl")).
-  repeat split. vm_compute. discriminate.
-Qed.
-
-Lemma platform_order_irrelevant_without_any c l l' :
-  Permutation l l' -> ~ In "any" l -> plat_score c l = plat_score c l'.
-Proof.
-  intros P Hn. unfold plat_score. rewrite (Permutation_length P).
+  intros P. unfold plat_score. rewrite (Permutation_length P).
   assert (forall acc, fold_left (plat_step c) l acc = fold_left (plat_step c) l' acc) as ->; auto.
-  clear -P Hn. induction P; intros acc; cbn; auto.
-  - apply IHP. intros H; apply Hn; right; auto.
-  - f_equal. assert (x <> "any" /\ y <> "any") as [Hx Hy] by (split; intros ->; apply Hn; cbn; auto).
-    apply String.eqb_neq in Hx, Hy. unfold plat_step. rewrite Hx, Hy.
-    destruct (manylinux_parse (alias y)) as [[[? ?] ?]|], (manylinux_parse (alias x)) as [[[? ?] ?]|];
+  clear -P. induction P; intros acc; cbn; auto.
+  - f_equal. unfold plat_step. rewrite gen_any_max.
+    destruct (String.eqb y "any"), (String.eqb x "any");
+    try destruct (manylinux_parse (alias_score y)) as [[[? ?] ?]|];
+    try destruct (manylinux_parse (alias_score x)) as [[[? ?] ?]|];
       repeat match goal with |- context [index_of ?a ?b] => destruct (index_of a b) end; lia.
-  - rewrite IHP1 by auto. apply IHP2. intros H. apply Hn. apply (Permutation_in _ (Permutation_sym P1)); auto.
+  - rewrite IHP1. apply IHP2.
 Qed.
+
+Example platform_set_order_resolved :
+  tag_score (cfg_of r312) (mkCand 0 v10 "" Wheel (Some ["py3"]) None ["any"; "linux_x86_64"] (Some "x.whl"))
+  = tag_score (cfg_of r312) (mkCand 0 v10 "" Wheel (Some ["py3"]) None ["linux_x86_64"; "any"] (Some "x.whl")).
+Proof. vm_compute. reflexivity. Qed.
+
+(* a legacy alias name scores exactly like its PEP 600 spelling, on every machine *)
+Lemma legacy_scores_as_pep600 c acc arch k n :
+  legacy_name k = Some n ->
+  plat_step c acc (n ++ "_" ++ arch) = plat_step c acc (manylinux_tag 2 k arch).
+Proof.
+  intros Hn. unfold plat_step.
+  assert (String.eqb (n ++ "_" ++ arch) "any" = false) as ->.
+  { unfold legacy_name in Hn. destruct (k =? 17)%N; [inversion Hn; reflexivity|].
+    destruct (k =? 12)%N; [inversion Hn; reflexivity|]. destruct (k =? 5)%N; [inversion Hn; reflexivity|discriminate]. }
+  assert (String.eqb (manylinux_tag 2 k arch) "any" = false) as -> by reflexivity.
+  rewrite (alias_score_legacy _ _ _ Hn).
+  assert (alias_score (manylinux_tag 2 k arch) = manylinux_tag 2 k arch) as ->; [|reflexivity].
+  unfold alias_score. rewrite (proj2 gen_alias_mode). apply alias_prefix_manylinux_. reflexivity.
+Qed.
+
 (* ------------------------------------------------------------------ Foreign, at file-name level *)
 
 Lemma split_char_acc_nonempty sep s acc : split_char_acc sep s acc <> [].
@@ -1006,19 +1127,19 @@ Qed.
 
 (* legacy alias names of a C library newer than the system's *)
 Lemma legacy_newer c k kk n arch :
-  legacy_arch arch = true -> legacy_name kk = Some n ->
+  legacy_name kk = Some n ->
   (forall p, In p (k_plats k) -> p = n ++ "_" ++ arch) -> k_plats k <> [] ->
   ~ In (lower (n ++ "_" ++ arch)) (c_platform_tags c) ->
   match c_glibc c with Some g => pair_ltb g (2%N, kk) = true | None => True end ->
   eligible c k = false.
 Proof.
-  intros La Ln Hall Hne Hnl Hg. apply foreign_platform. intros p Hp. rewrite (Hall p Hp).
+  intros Ln Hall Hne Hnl Hg. apply foreign_platform. intros p Hp. rewrite (Hall p Hp).
   split; [|split; [exact Hnl|]].
   - unfold legacy_name in Ln.
     destruct (kk =? 17)%N; [inversion Ln; discriminate|].
     destruct (kk =? 12)%N; [inversion Ln; discriminate|].
     destruct (kk =? 5)%N; [inversion Ln; discriminate|discriminate].
-  - unfold manylinux_compatible. rewrite (gen_alias_legacy _ _ _ La Ln), manylinux_parse_render.
+  - unfold manylinux_compatible. rewrite (alias_legacy _ _ _ Ln), manylinux_parse_render.
     destruct (c_glibc c); auto. rewrite Hg. reflexivity.
 Qed.
 
